@@ -10,6 +10,38 @@ use serde_json::{Value, json};
 
 const PK: [&str; 4] = ["Main", "A", "B", "C"];
 
+/// other names for A, B, C: each a proper prefix of the next, in both directions relative to the
+/// roles the packages play (how a package is told apart from another must not be a prefix test)
+const NAMINGS: [[&str; 3]; 3] = [["A", "B", "C"], ["Geo", "Geometry", "G"], ["Geometry", "Geo", "Geomet"]];
+
+/// rename the packages A, B, C (whole identifiers only) in a file's path or text
+fn rename_packages(text: &str, naming: usize) -> String {
+    if naming == 0 {
+        return text.to_string();
+    }
+    let mut out = String::new();
+    let mut word = String::new();
+    let flush = |word: &mut String, out: &mut String| {
+        match word.as_str() {
+            "A" => out.push_str(NAMINGS[naming][0]),
+            "B" => out.push_str(NAMINGS[naming][1]),
+            "C" => out.push_str(NAMINGS[naming][2]),
+            w => out.push_str(w),
+        }
+        word.clear();
+    };
+    for ch in text.chars() {
+        if ch.is_alphanumeric() || ch == '_' {
+            word.push(ch);
+        } else {
+            flush(&mut word, &mut out);
+            out.push(ch);
+        }
+    }
+    flush(&mut word, &mut out);
+    out
+}
+
 /// syntactic positions in which a package-qualified name can be written
 const REFERENCE_KINDS: [&str; 18] = [
     "fn", "type", "variant", "ret-type", "generic-arg", "tuple-elem", "fn-type", "let-annot", "closure-annot", "closure-annot-nested", "struct-field", "enum-payload", "struct-lit",
@@ -163,6 +195,9 @@ fn cases_list(tier: Tier) -> Vec<Value> {
         for to in 0..4 {
             for k in REFERENCE_KINDS {
                 v.push(json!({"kind": "reference", "from": from, "to": to, "what": k}));
+                for naming in 1..NAMINGS.len() {
+                    v.push(json!({"kind": "reference", "from": from, "to": to, "what": k, "naming": naming}));
+                }
             }
         }
     }
@@ -170,6 +205,9 @@ fn cases_list(tier: Tier) -> Vec<Value> {
     for target in IMPL_TARGETS {
         for placement in 0u32..16 {
             v.push(json!({"kind": "impl", "placement": placement, "target": target}));
+            for naming in 1..NAMINGS.len() {
+                v.push(json!({"kind": "impl", "placement": placement, "target": target, "naming": naming}));
+            }
         }
     }
     v
@@ -185,7 +223,7 @@ impl Family for Isolation {
         &["C16", "C04", "C13"]
     }
     fn rule(&self) -> &'static str {
-        "all import graphs on {Main,A,B,C} with <= 4 edges (quick) / all 4096 (thorough) incl. cycles and self-reachable shapes: accepted iff the subgraph reachable from Main is acyclic, and then the program prints the value the graph denotes; 9 existence/naming faults (missing directory, misnamed package declaration, empty directory) on a diamond; 216 qualified references from each package of a chain to each package in 18 syntactic positions (fn call, parameter / result / generic-argument / tuple / function type, let and closure-parameter annotation, struct field, enum payload, struct literal and pattern, impl header, trait bound, trait path call, dyn type, variant): accepted iff the target is the package itself or a direct import; 16 impl placements (subsets of {A, B, C, Main}) x 9 implementing types {B::S, B::G[int32], int32, string, bool, Vec[int32], Ref[int32], (int32, bool), [int32; 2]} for a trait in A: accepted iff every impl is in the trait's package or (for B's own types) the type's package and at most one exists (builtin types have no home package). verdict = pure reference function of the configuration. non-trivial = configurations that must be rejected; distinct = distinct configuration"
+        "all import graphs on {Main,A,B,C} with <= 4 edges (quick) / all 4096 (thorough) incl. cycles and self-reachable shapes: accepted iff the subgraph reachable from Main is acyclic, and then the program prints the value the graph denotes; 9 existence/naming faults (missing directory, misnamed package declaration, empty directory) on a diamond; 216 qualified references from each package of a chain to each package in 18 syntactic positions (fn call, parameter / result / generic-argument / tuple / function type, let and closure-parameter annotation, struct field, enum payload, struct literal and pattern, impl header, trait bound, trait path call, dyn type, variant): accepted iff the target is the package itself or a direct import; 16 impl placements (subsets of {A, B, C, Main}) x 9 implementing types {B::S, B::G[int32], int32, string, bool, Vec[int32], Ref[int32], (int32, bool), [int32; 2]} for a trait in A: accepted iff every impl is in the trait's package or (for B's own types) the type's package and at most one exists (builtin types have no home package). the reference and impl-placement configurations also with the packages named so that each name is a proper prefix of another's ({Geo, Geometry, G} and {Geometry, Geo, Geomet} for {A, B, C}); verdict = pure reference function of the configuration. non-trivial = configurations that must be rejected; distinct = distinct configuration"
     }
     fn cases(&self, tier: Tier) -> Box<dyn Iterator<Item = Value> + '_> {
         Box::new(cases_list(tier).into_iter())
@@ -312,6 +350,9 @@ impl Family for Isolation {
                 site = format!("impl;target={};placement=A{}B{}C{}M{}", target, in_a as u8, in_b as u8, in_c as u8, in_m as u8);
             }
         }
+        let naming = case["naming"].as_u64().unwrap_or(0) as usize;
+        let site = if naming == 0 { site } else { format!("{};names={}", site, NAMINGS[naming].join("+")) };
+        let files: Vec<(String, String)> = files.into_iter().map(|(p, t)| (rename_packages(&p, naming), rename_packages(&t, naming))).collect();
         let proj = Project { name: site.clone(), files, expected_stdout: expect_out.clone() };
         let order: Vec<usize> = (0..proj.files.len()).collect();
         materialize(&root, &proj, &order);
